@@ -78,7 +78,7 @@ Proof.
   assert (NA : cs_is_applied (cs_update_state cfg st round tx r) = false).
   { unfold cs_update_state.
     destruct (cs_update_ideal cfg st round tx r) as [st' s o e| |] eqn:E; try reflexivity.
-    apply cs_update_ideal_applied_hash in E. destruct E as (_ & HT).
+    apply cs_update_ideal_applied_hash in E. destruct E as (_ & HT & _).
     pose proof (cs_is_hash_strict cfg _ S (HT TY)) as C. unfold cs_canon_id in C. lia. }
   split; [exact NA|].
   destruct (cs_update_state cfg st round tx r); cbn in *; [discriminate|reflexivity|reflexivity].
@@ -208,14 +208,30 @@ Proof.
   rewrite T. cbn [st_accts]. eapply cs_c01_genesis; eauto.
 Qed.
 
-(* the residue: AddSignedTransfer does not look at the destination, so a contract that signs a
-   transfer to the other-case spelling of an existing id still loses the credit, strict IsHash or
-   not (this is why [cs_accepted] asks it of signed transfers as a premise) *)
+(* a signed transfer to an id the strict IsHash refuses fails the transaction *)
 Definition cs_c01_strict_cfg := {| cfg_fee := true; cfg_events := false; cfg_miner := 0; cfg_strict_ids := true |}.
-Lemma cs_c01_signed_residue :
+Lemma cs_c01_signed_noncanonical_rejected : forall cfg st round tx ws trs signed evs out,
+    cfg_strict_ids cfg = true -> tx_type tx = TSC ->
+    Exists (fun t => ~ cs_canon_id (tr_to t)) signed ->
+    cs_is_applied (cs_update_state cfg st round tx (SCOk ws trs signed evs out)) = false /\
+    cs_post st (cs_update_state cfg st round tx (SCOk ws trs signed evs out)) = st.
+Proof.
+  intros cfg st round tx ws trs signed evs out S TY EX.
+  assert (NA : cs_is_applied (cs_update_state cfg st round tx (SCOk ws trs signed evs out)) = false).
+  { unfold cs_update_state.
+    destruct (cs_update_ideal cfg st round tx (SCOk ws trs signed evs out)) as [st' s o e| |] eqn:E; try reflexivity.
+    apply cs_update_ideal_applied_hash in E. destruct E as (_ & _ & HS).
+    specialize (HS ws trs signed evs out TY eq_refl).
+    apply Exists_exists in EX. destruct EX as (t & It & Nt). rewrite Forall_forall in HS.
+    exfalso. apply Nt. apply (cs_is_hash_strict cfg); auto. }
+  split; [exact NA|].
+  destruct (cs_update_state cfg st round tx (SCOk ws trs signed evs out)); cbn in *; [discriminate|reflexivity|reflexivity].
+Qed.
+
+Lemma cs_c01_signed_example :
   let tx := {| tx_hash := 0; tx_type := TSC; tx_from := 3; tx_to := 1; tx_value := 0; tx_fee := 0; tx_nonce := 1 |} in
   let r := SCOk [] [] [Build_cs_transfer 3 (cs_upper_base + 4) 100] [] 0 in
-  cs_total (st_accts (cs_post cs_c01_witness_state (cs_update_state cs_c01_strict_cfg cs_c01_witness_state 7 tx r))) = 1900.
+  cs_update_state cs_c01_strict_cfg cs_c01_witness_state 7 tx r = Rejected ErrBadTo.
 Proof. vm_compute. reflexivity. Qed.
 
 Lemma cs_c01_reachable_supply : forall gs m cfg nodes h,
